@@ -133,12 +133,13 @@ CHECKS = {
             dict(name="TestC07Interleave", quick=dict(checks=80, shards=6, timeout=900), thorough=dict(checks=400, shards=12, timeout=3400)),
         ]),
     "C17": dict(
-        pkg="c17", level="exploration",
+        pkg="c17", level="exploration", bins=["dcat"], helpers=["vserver"],
         technique="property-based testing (rapid), model-based: generated known_hosts files, contacted hosts and user answers against the real host-key callback and prompt (stdin/stdout replaced by pipes); reference model of who is let through; invariants over the rewritten file",
         level_text="The real KnownHostsCallback is driven in-process: host key callbacks for generated sets of known, unknown and changed hosts run concurrently, the batched prompt is answered through a pipe, and afterwards the verdict of every callback and the rewritten known_hosts file are checked (parses, accepts the trusted hosts by name and address, unrelated entries byte-identical and in order, two new lines per trusted host, untouched after 'no').",
         level_note="Lines longer than 64 KiB are outside the domain (x/crypto's knownhosts refuses such a file before dtail's rewrite can run). A key revoked in the file for a contacted host is outside the domain.",
         tests=[
-            dict(name="TestC17Callback", quick=dict(checks=30, shards=8, timeout=900), thorough=dict(checks=500, shards=12, timeout=3400)),
+            dict(name="TestC17Callback", quick=dict(checks=30, shards=8, timeout=900), thorough=dict(checks=500, shards=10, timeout=3400)),
+            dict(name="TestC17E2E", quick=dict(checks=8, shards=6, timeout=900), thorough=dict(checks=120, shards=6, timeout=3400)),
         ]),
     "C15": dict(
         pkg="c15", level="fault_enumeration", bins=["dmap"],
